@@ -857,8 +857,20 @@ def warm_process(ctx, nss):
         ctx.notes.append(f"the warm-up simulation raised {type(e).__name__}: {str(e)[:100]}")
 
 
+TRUSTED_EXTRA = TRUSTED_EXTRA + ["the source tie's reader harness/cfgtrans.py: its recognised statement forms and the assumed pydantic / strptime behaviour listed in its docstring (cross-checked on this run against the live classes: coverage.source_tie.schema)"]
+
+
+def regen():
+    """source tie: Gen/Src/C15.lean regenerated from the class bodies / create_toml / config_from_toml of the working tree (harness/cfgtrans.py)"""
+    import cfgtrans
+    return cfgtrans.regen_c15()
+
+
 def run(ctx: Ctx):
     nss, cfgmod = _imports()
+    import cfgtrans
+    cfgtrans.crosscheck_c15(ctx, cfgmod)
+    cfgtrans.malformed_files(ctx, cfgmod)
     warm_process(ctx, nss)
     check_defaults(ctx, cfgmod)
     check_units(ctx, cfgmod)
